@@ -157,7 +157,12 @@ func (e *Executor) Run(keys state.Keys, f func() error) {
 	// We can have more than 1 dependency per key (in the case that there
 	// are many readers for a single key), so we set this higher than we ever
 	// expect to see.
-	t.dependencies.Add(e.maxDependencies)
+	//
+	// We hold one unit more than the allowed number of dependencies: a task with
+	// exactly [maxDependencies] dependencies that all finish while we are still
+	// enqueuing must not reach zero before the adjustment below (it would be
+	// queued for execution twice).
+	t.dependencies.Add(e.maxDependencies + 1)
 
 	// Record dependencies
 	dependencies := set.NewSet[int](len(keys))
@@ -207,7 +212,7 @@ func (e *Executor) Run(keys state.Keys, f func() error) {
 	}
 
 	// Adjust dependency traker and execute if necessary
-	difference := e.maxDependencies - int64(dependencies.Len())
+	difference := e.maxDependencies + 1 - int64(dependencies.Len())
 	if t.dependencies.Add(-difference) > 0 {
 		if e.metrics != nil {
 			e.metrics.RecordBlocked()
